@@ -147,7 +147,7 @@ mod serde {
 				self.pe
 					.section_headers()
 					.iter()
-					.position(|&sect| dd.VirtualAddress >= sect.VirtualAddress && dd.VirtualAddress < sect.VirtualAddress + sect.VirtualSize)
+					.position(|&sect| dd.VirtualAddress >= sect.VirtualAddress && dd.VirtualAddress < u32::wrapping_add(sect.VirtualAddress, sect.VirtualSize))
 			});
 			state.serialize_field("DataDirectory.Sections", &SerdeIter(data_directory_sects))?;
 
